@@ -561,6 +561,48 @@ def part_keys(fx, tmp):
                 C.violation("jwk2key|key-differs", "via %s only %s came back identical" % (via, sorted(got)))
         C.nontrivial()
         shutil.rmtree(d, ignore_errors=True)
+    # every ordered pair (thorough: triple) of file kinds in one key2jwk call: each position yields what the file yields alone
+    if True:
+        d = tempfile.mkdtemp(dir=tmp)
+        open(os.path.join(d, "h.bin"), "wb").write(bytes(range(3, 67)))
+        kinds = [("rsa-priv", os.path.join(KEYS, "rsa2048a.priv.pem")), ("rsa-pub", os.path.join(KEYS, "rsa2048b.pub.pem")),
+                 ("ec-priv", os.path.join(KEYS, "p256a.priv.pem")), ("ec-pub", os.path.join(KEYS, "p384.pub.pem")),
+                 ("okp-priv", os.path.join(KEYS, "ed25519a.priv.pem")), ("okp-pub", os.path.join(KEYS, "ed448.pub.pem")), ("raw", os.path.join(d, "h.bin"))]
+
+        def convert(files):
+            out = os.path.join(d, "m.json")
+            if os.path.exists(out):
+                os.unlink(out)
+            rc, so, se = run([tool("key2jwk"), "-q", "-o", out] + files)
+            try:
+                keys = json.load(open(out))["keys"]
+            except Exception:
+                return rc, None
+            for k in keys:
+                k.pop("kid", None)
+            return rc, keys
+        alone = {}
+        for nm, f in kinds:
+            rc, keys = convert([f])
+            alone[nm] = keys[0] if keys and len(keys) == 1 else None
+        for width in ((2, 3) if C.tier == "thorough" else (2,)):
+            for combo in itertools.product(range(len(kinds)), repeat=width):
+                label = " ".join(kinds[i][0] for i in combo)
+                if not C.case("key2jwk with the files [%s] in this order: every position yields the key its file yields alone" % label):
+                    continue
+                rc, keys = convert([kinds[i][1] for i in combo])
+                C.obs((rc, len(keys) if keys is not None else -1))
+                if keys is None or len(keys) != width:
+                    C.violation("key2jwk|multi-file|key-count", "[%s]: exit %d, %s keys written" % (label, rc, "no" if keys is None else len(keys)))
+                    continue
+                for pos, i in enumerate(combo):
+                    if alone[kinds[i][0]] is None:
+                        continue
+                    if keys[pos] != alone[kinds[i][0]]:
+                        C.violation("key2jwk|multi-file|key-differs|%s-after-%s" % (kinds[i][0], kinds[combo[pos - 1]][0] if pos else "nothing"),
+                                    "[%s]: position %d is %s, the file alone gives %s" % (label, pos, json.dumps(keys[pos])[:160], json.dumps(alone[kinds[i][0]])[:160]))
+                C.nontrivial()
+        shutil.rmtree(d, ignore_errors=True)
     # oct files of 32..512 bytes (below 32 bytes key2jwk does not guess HMAC)
     lens = range(32, 513) if C.tier == "thorough" else list(range(32, 72)) + [127, 128, 129, 255, 256, 257, 511, 512]
     for n in lens:
